@@ -26,7 +26,7 @@ ASSUMPTIONS = [
     "bit-identity is demanded for finite values; NaN, +-inf, None and absent entries must load as missing (None)",
 ]
 MINIMUM = {"C18.files_judged": 150, "C18.values_judged": 20000, "f:C18.group_name_with_dash": 20, "f:C18.missing_values": 1000}
-BUDGET_S = {"quick": 600, "thorough": 900}
+BUDGET_S = {"quick": 1200, "thorough": 900}
 
 GROUP_NAMES = ["liver", "a-b", "left_lung", "with space", "upper", "v2.0", "größe", 'qu"ote', "a-b-c", "-lead", "trail-", "x", "tab_free", "ünï", "it's"]
 SUBJECT_NAMES = ["case 01", "sub-001", 'q"uote', " lead", "trail ", "subject_name", "s,comma", "ünï-code", "UPPER", "a'b", "x-y-z", "0", "-", "name with  two  spaces"]
